@@ -134,3 +134,25 @@ func (b *NodeBlocks) EmitRaw(v uint64) {
 	b.mu.Unlock()
 	b.emit(watchers, v)
 }
+
+// EmitRawBlocking hands v to every live watcher with a BLOCKING send (the
+// caller must be a helper goroutine, never the simulator's root goroutine when
+// it still has to reach quiescence). It returns false when no live watcher
+// exists. Used for back-to-back bursts without quiescence in between.
+func (b *NodeBlocks) EmitRawBlocking(v uint64) bool {
+	b.mu.Lock()
+	watchers := append([]*blockWatcher(nil), b.watchers...)
+	b.mu.Unlock()
+	sent := false
+	for _, w := range watchers {
+		if w.ctx.Err() != nil {
+			continue
+		}
+		select {
+		case w.ch <- v:
+			sent = true
+		case <-w.ctx.Done():
+		}
+	}
+	return sent
+}
